@@ -296,9 +296,9 @@ func verifDigestT(sb *strings.Builder, t *T, depth int, full bool) {
 			fmt.Fprintf(sb, " val=%q", v)
 		}
 	}
-	fmt.Fprintf(sb, " args=%v def=%v bi=%v ast=%v cond=%v destr=%v ro=%v blk=%v st=%v cap=%v",
+	fmt.Fprintf(sb, " args=%v def=%v bi=%v ast=%v cond=%v destr=%v ro=%v blk=%v st=%v cap=%v inc=%v ext=%v",
 		t.defineArgs, t.hasDefault, t.isBuiltin, t.IsBuiltinAsterisk, t.IsConditionalReturn,
-		t.IsDestructive, t.isReadOnly, t.IsBlockGiven, t.IsStatic, t.IsCaptureOwner)
+		t.IsDestructive, t.isReadOnly, t.IsBlockGiven, t.IsStatic, t.IsCaptureOwner, t.IsInclude, t.IsExtend)
 	if full {
 		fmt.Fprintf(sb, " inf=%v round=%s prot=%v", t.isInfferedFromCall, t.Round, t.IsProtected)
 	}
